@@ -178,6 +178,114 @@ theorem checkCore_iff (m : Model) (hs : Sane m) (hv : VDet m) (env : FnEnv) (hen
       · rw [houts]; exact matchTree_complete m env hgt hv hk Reach.start
       · simp [signersOf, hpn, hsig]
 
+/-! ### any `user_fns` dictionary: what was yielded before an exception is still right -/
+
+theorem stepG_outs (m : Model) (g : EdgeFn) (name : List Bytes) (S : St) :
+    ∃ l, (stepG m g name S).outs = S.outs ++ l := by
+  unfold stepG
+  cases S.cur with
+  | none => exact ⟨[], by simp⟩
+  | some cur =>
+    simp only
+    cases m.nodes[cur]? with
+    | none => exact ⟨[], by simp [St.fail]⟩
+    | some node =>
+      simp only
+      split
+      · exact ⟨[(cur, S.ctx)], by simp [backtrack]⟩
+      · cases name[S.stk.length]? with
+        | none => exact ⟨[], by simp [St.fail]⟩
+        | some c =>
+          simp only
+          cases S.ei with
+          | none =>
+            simp only
+            cases firstV node.vEdges c <;> exact ⟨[], by simp⟩
+          | some i =>
+            simp only
+            cases node.pEdges[i]? with
+            | none => exact ⟨[], by simp [backtrack]⟩
+            | some pe =>
+              simp only
+              cases g pe c S.ctx with
+              | error e => exact ⟨[], by simp [St.fail]⟩
+              | ok r =>
+                cases r with
+                | none => exact ⟨[], by simp⟩
+                | some p => exact ⟨[], by simp⟩
+
+theorem runG_outs (m : Model) (g : EdgeFn) (name : List Bytes) (j d : Nat) (S : St) :
+    ∃ l, (runG m g name (j + d) S).outs = (runG m g name j S).outs ++ l := by
+  induction d with
+  | zero => exact ⟨[], by simp⟩
+  | succ d ih =>
+    obtain ⟨l, hl⟩ := ih
+    rw [show j + (d + 1) = (j + d) + 1 by omega, runG_add, runG_one]
+    obtain ⟨l', hl'⟩ := stepG_outs m g name (runG m g name (j + d) S)
+    exact ⟨l ++ l', by rw [hl', hl, List.append_assoc]⟩
+
+/-- whatever the user functions do, everything the iterative search yields is something the recursive
+    matcher computes — hence a match of the specification -/
+theorem matchIter_outs_subset (m : Model) (ht : TreeOK m) (env : FnEnv) (name : List Bytes) (σ : Ctx)
+    (x : Nat × Ctx) (hx : x ∈ (matchIter m env name σ).outs) : x ∈ matchTree m env name m.startId σ := by
+  unfold matchIter at hx
+  obtain ⟨k, hk, ei, hrun⟩ := run_from_start (name := name) ht (refuseErr_total m (edgeFn m env))
+    (refuseErr_disc _ (edgeDisc_tryEdge env m.namedCnt)) σ
+  have hfin : runG m (refuseErr (edgeFn m env)) name (stepBound (maxPE m) name.length) (initSt m σ)
+      = runG m (refuseErr (edgeFn m env)) name k (initSt m σ) :=
+    runG_of_le _ _ _ _ _ _ hk (by rw [hrun])
+  have hall : (runG m (refuseErr (edgeFn m env)) name (stepBound (maxPE m) name.length) (initSt m σ)).outs
+      = matchTree m env name m.startId σ := by
+    rw [hfin, hrun]; exact matchTreeG_refuseErr m _ name _ σ
+  rcases runG_sim m (edgeFn m env) name (stepBound (maxPE m) name.length) (initSt m σ) with h | ⟨j, e, hj, h⟩
+  · rw [h, hall] at hx; exact hx
+  · rw [h] at hx
+    obtain ⟨d, hd⟩ := Nat.exists_eq_add_of_le (Nat.le_of_lt hj)
+    obtain ⟨l, hl⟩ := runG_outs m (refuseErr (edgeFn m env)) name j d (initSt m σ)
+    rw [← hd, hall] at hl
+    rw [hl]
+    exact List.mem_append_left _ hx
+
+theorem checkLoop_true_sound (m : Model) (env : FnEnv) (key : List Bytes) (l : List (Nat × Ctx))
+    (oe : Option LvsErr) (h : checkLoop m env key l oe = .ok true) :
+    ∃ p ∈ l, ∃ o ∈ (matchIter m env key p.2).outs, o.1 ∈ signersOf m p.1 := by
+  induction l with
+  | nil => cases oe <;> simp [checkLoop] at h
+  | cons p r ih =>
+    obtain ⟨pn, σ⟩ := p
+    simp only [checkLoop] at h
+    cases hk : keyHit (signersOf m pn) (matchIter m env key σ) with
+    | error e => simp [hk] at h
+    | ok b =>
+      cases b with
+      | true =>
+        unfold keyHit at hk
+        split at hk
+        · rename_i hany
+          rw [List.any_eq_true] at hany
+          obtain ⟨o, ho, hc⟩ := hany
+          exact ⟨(pn, σ), by simp, o, ho, by simpa using hc⟩
+        · split at hk <;> simp at hk
+      | false =>
+        simp only [hk] at h
+        obtain ⟨p, hp, rest⟩ := ih h
+        exact ⟨p, List.mem_cons_of_mem _ hp, rest⟩
+
+/-- **a yes is always justified**, whatever the user functions do -/
+theorem checkCore_true_sound (m : Model) (hs : Sane m) (env : FnEnv) (pkt key : List Bytes)
+    (h : checkCore m env pkt key = .ok true) : Signs m (pureOf env) pkt key := by
+  unfold checkCore at h
+  obtain ⟨⟨pn, σ⟩, hp, ⟨kn, σ'⟩, hk, hsig⟩ := checkLoop_true_sound m env key _ _ h
+  have hp' := matchIter_outs_subset m hs.treeOK env pkt [] _ hp
+  have hk' := matchIter_outs_subset m hs.treeOK env key σ _ hk
+  unfold signersOf at hsig
+  cases hpn : m.nodes[pn]? with
+  | none => simp [hpn] at hsig
+  | some pnode =>
+    simp only [hpn] at hsig
+    exact ⟨pn, σ, pnode, kn, σ', matchTree_sound m env pkt _ _ _ _ hp', hpn,
+      matchTree_sound m env key _ _ _ _ hk', hsig⟩
+
 theorem stripDigest_eq (name : List Bytes) :
     stripDigest name = (match dropDigest name with | some nm => .ok nm | none => .error .indexError) := by
   unfold stripDigest dropDigest
